@@ -44,6 +44,7 @@ SIG_ROUTE = "BayesianProblem._check_posterior"
 SIG_SETUP = "BayesianProblem._solve_max_point"
 SIG_OPT = "BayesianProblem._solve_max_point|optimiser"
 SIG_NONSMOOTH = "BayesianProblem._solve_max_point|nonsmooth-prior:bfgs-finite-differences"
+SIG_ML = "BayesianProblem.ML"
 
 PARAMS = ["cov", "prec", "sqrtcov", "sqrtprec"]
 KINDS = ["scalar", "vector", "matrix", "sparse"]
@@ -317,12 +318,29 @@ WITNESS_GEOM = {"op": "map", "A": [[1, 2, 0], [0, 1, 1]], "b": [1, -1], "n": 3, 
                 "model": "dense", "geom": "mapped_lin"}
 
 
+def make_x0(cuqi, spec, BP):
+    """the caller's initial guess in every style"""
+    st, v = spec["style"], spec["val"]
+    if st == "scalar":
+        return float(v)
+    if st == "list":
+        return [float(a) for a in v]
+    if st == "cuqiarray":
+        return cuqi.array.CUQIarray(np.array(v, dtype=float), geometry=BP.model.domain_geometry)
+    return np.array(v, dtype=float)
+
+
 def run_map(cuqi, meta):
     """-> (obs, A_eff, m, n, computed, extras)"""
     BP, A_eff, m, n, computed = build_problem(cuqi, meta)
     extras = {}
     try:
-        r = quiet(BP.MAP, disp=False) if meta.get("disp_false") else quiet(BP.MAP)
+        kw = {}
+        if meta.get("x0arg") is not None:
+            kw["x0"] = make_x0(cuqi, meta["x0arg"], BP)
+        if meta.get("disp") is not None:
+            kw["disp"] = bool(meta["disp"])
+        r = quiet(BP.MAP, **kw)
         obs = [float(v) for v in np.asarray(r).ravel()]
         extras["wrap_ok"] = bool(isinstance(r, cuqi.array.CUQIarray) and r.geometry is BP.posterior.geometry and r.is_par
                                  and r.info == {"solver": "direct"} and np.asarray(r).shape == (n,))
@@ -538,6 +556,12 @@ def lattice_map(ctx):
             for ke, kx in [("matrix", "matrix"), ("scalar", "scalar"), ("vector", "vector"), ("diagm", "matrix")]:
                 for (m, n) in [(2, 3), (3, 2)]:
                     cells.append(dict(m=m, n=n, ke=ke, kx=kx, pe="cov", px="cov", model="dense", geom="default", mean="vec", scale=(kind, k)))
+    # 10. the optional arguments of MAP on the closed-form route: x0 in every style and relation to the prior mean, disp
+    for ke, kx in [("matrix", "matrix"), ("scalar", "scalar"), ("vector", "vector")]:
+        for (m, n) in [(2, 3), (3, 3), (3, 2)]:
+            for i, xs in enumerate(["prior", "other", "zeros", "scalar", "list", "cuqiarray"]):
+                cells.append(dict(m=m, n=n, ke=ke, kx=kx, pe="cov", px="cov", model=["dense", "func", "sparse"][i % 3], geom="default", mean="vec",
+                                  x0arg=xs, disp=bool((i + m) % 2)))
     # 6. matrix model + non-identity geometry (finding ..|matrix-model+nonidentity-geometry; step_mat is a refusal)
     for geom in NONID:
         for (m, n) in [(2, 3), (3, 3), (3, 2)]:
@@ -608,6 +632,18 @@ def instantiate(rng, c, op="map"):
                 meta["ce"]["style"] = c["se"]
             if c.get("sx"):
                 meta["cx"]["style"] = c["sx"]
+            if c.get("x0arg"):
+                xs = c["x0arg"]
+                pm = [float(v) for v in meta["mean"]["val"]] if meta["mean"]["kind"] == "vec" else [float(meta["mean"]["val"])] * n
+                val = {"prior": pm, "zeros": [0.0] * n, "scalar": dy(rng) + 0.25}.get(xs)
+                if val is None:
+                    val = [v + dy(rng, 1, 3) for v in pm]           # differs from the prior mean in every component
+                meta["x0arg"] = {"style": xs if xs in ("scalar", "list", "cuqiarray") else "ndarray", "val": val, "rel": xs}
+                meta["disp"] = c["disp"]
+                if xs in ("zeros", "prior") and not any(pm):
+                    meta["mean"] = {"kind": "vec", "val": [dy(rng, 1, 3) for _ in range(n)]}     # keep zeros != prior mean
+                    if xs == "prior":
+                        meta["x0arg"]["val"] = [float(v) for v in meta["mean"]["val"]]
             if c.get("scale"):
                 kind, k = c["scale"]
                 t = 2.0 ** k
@@ -636,6 +672,8 @@ def cell_name(c, op):
         extra += "/scale:%s*2^%d" % c["scale"]
     if c.get("history"):
         extra += "/history"
+    if c.get("x0arg"):
+        extra += "/x0:%s,disp:%s" % (c["x0arg"], c["disp"])
     return "%s/%s-%s/Ce:%s,Cx:%s%s/mean:%s/%s%s" % (op, c["model"], c["geom"], c["ke"], c["kx"], par, c["mean"], shape, extra)
 
 
@@ -690,11 +728,19 @@ def case_map(cuqi, meta, fixed, cell):
         except Exception:
             sig = SIG_OTHER
     rel = bool(meta.get("scale")) and not isinstance(obs, str)
-    expr = "%s %s %s %s %s %s %s %s %s %s && %s" % (
-        "check_map_rel" if rel else "check_map",
-        cbool(fixed), cnat(m), cnat(n), cqmat(A_eff.tolist()), cqvec(meta["b"]), cqvec(model_x0(meta, n)),
-        c_gdesc(meta["ce"], m, computed.get("ce")), c_gdesc(meta["cx"], n, computed.get("cx")),
-        cqvec(obs) if rel else c_obs(obs), cbool(extras["wrap_ok"]))
+    if meta.get("x0arg") is not None or meta.get("disp") is not None:
+        xa = meta.get("x0arg")
+        xav = None if xa is None else ([xa["val"]] if xa["style"] == "scalar" else list(xa["val"]))
+        expr = "check_map_entry %s %s %s %s %s %s %s %s %s %s %s && %s" % (
+            cbool(fixed), cnat(m), cnat(n), cqmat(A_eff.tolist()), cqvec(meta["b"]), cqvec(model_x0(meta, n)),
+            copt(xav, cqvec), cbool(meta.get("disp", True)),
+            c_gdesc(meta["ce"], m, computed.get("ce")), c_gdesc(meta["cx"], n, computed.get("cx")), c_obs(obs), cbool(extras["wrap_ok"]))
+    else:
+        expr = "%s %s %s %s %s %s %s %s %s %s && %s" % (
+            "check_map_rel" if rel else "check_map",
+            cbool(fixed), cnat(m), cnat(n), cqmat(A_eff.tolist()), cqvec(meta["b"]), cqvec(model_x0(meta, n)),
+            c_gdesc(meta["ce"], m, computed.get("ce")), c_gdesc(meta["cx"], n, computed.get("cx")),
+            cqvec(obs) if rel else c_obs(obs), cbool(extras["wrap_ok"]))
     return Case(expr=expr, meta=meta, cell=cell, kind="EXACT", impl_fail=fail, signature=sig if fail else "")
 
 
@@ -1086,6 +1132,131 @@ WITNESS_NONSMOOTH = {"op": "optns", "prior": "Laplace", "lik": "Gaussian", "line
                      "A": [[1, 0], [0, 1], [1, 1]], "b": [1, 0.5, -1]}
 
 
+class _SolverSpy:
+    """wraps cuqi.solver.minimize / L_BFGS_B by recording subclasses (the real optimisers still run)"""
+    def __init__(self, cuqi):
+        self.cuqi, self.ran = cuqi, []
+
+    def __enter__(self):
+        spy = self
+        self.saved = {nm: getattr(self.cuqi.solver, nm) for nm in ("minimize", "L_BFGS_B")}
+        for nm, cls in self.saved.items():
+            def mk(nm=nm, cls=cls):
+                class Rec(cls):
+                    def solve(self2):
+                        spy.ran.append(nm)
+                        return cls.solve(self2)
+                return Rec
+            setattr(self.cuqi.solver, nm, mk())
+        return self
+
+    def __exit__(self, *a):
+        for nm, cls in self.saved.items():
+            setattr(self.cuqi.solver, nm, cls)
+
+
+def label_of(info):
+    return {"direct": 0, "L-BFGS-B": 1}.get(info.get("solver"), 2)
+
+
+def case_ml(cuqi, meta):
+    """ML over the noise lattice x shapes x model forms at the NORMAL config (a closed-form branch appearing is a disagreement)"""
+    BP, A_eff, m, n, computed = build_problem(cuqi, meta)
+    kw = {}
+    if meta.get("x0arg") is not None:
+        kw["x0"] = make_x0(cuqi, meta["x0arg"], BP)
+    if meta.get("disp") is not None:
+        kw["disp"] = bool(meta["disp"])
+    with _SolverSpy(cuqi) as spy:
+        try:
+            r = quiet(BP.ML, **kw)
+            exc = None
+        except Exception as e:
+            r, exc = None, e
+    linear = meta["model"] != "general"
+    P = "(mk_pinfo %s %s %s %s %s %s)" % (cnat(0), cnat(0), cbool(linear), cnat(m), cnat(n), cbool(True))
+    cell = "ml/%s/Ce:%s%s/%s/x0:%s" % (meta["model"], meta["ce"]["kind"] + (":const" if meta.get("constvec") else ""),
+                                       "" if meta["ce"]["param"] == "cov" else "/param:" + meta["ce"]["param"],
+                                       "under" if m < n else ("square" if m == n else "over"),
+                                       meta["x0arg"]["rel"] if meta.get("x0arg") else "default")
+    if exc is not None:
+        return Case(expr="false", meta=meta, cell=cell, kind="DECISION",
+                    impl_fail="ML raised %r on a linear-Gaussian problem whose likelihood has a maximiser" % (exc,), signature=SIG_ML)
+    x = np.asarray(r, dtype=float)
+    A = [[F(v) for v in row] for row in A_eff.tolist()]
+    b = [F(v) for v in meta["b"]]
+    Ce = intended_cov(meta["ce"], m)
+    Pe = f_inv(Ce)
+    At = f_T(A)
+    fail = None
+    route_expr = "check_entry_route true %s %s %s %s" % (P, cnat(2000), cnat(label_of(r.info)), cbool(bool(spy.ran)))
+    if not (isinstance(r, cuqi.array.CUQIarray) and r.geometry is BP.likelihood.geometry and x.shape == (n,)):
+        fail = "ML result is not a CUQIarray of the parameter dimension on the likelihood's geometry"
+    if m >= n:
+        ref = f_mv(f_inv(f_mm(f_mm(At, Pe), A)), f_mv(At, f_mv(Pe, b)))
+        if fail is None and not close_v(x, ref, tol=5e-5):
+            fail = "ML returned %s (info solver=%s success=%s) but the weighted least-squares maximiser of the likelihood is %s" % (
+                x, r.info.get("solver"), r.info.get("success"), [float(v) for v in ref])
+        ge_exact = {"param": "cov", "kind": "matrix", "val": Ce}
+        expr = "check_opt_ml %s %s %s %s %s %s && %s" % (cnat(m), cnat(n), cqmat(A_eff.tolist()), cqvec(meta["b"]), c_gdesc(ge_exact, m),
+                                                        cqvec(x.tolist()), route_expr)
+    else:
+        # not unique: the maximum is attained exactly where A x = b (full row rank): residual zero, gradient zero
+        res = np.array(A_eff) @ x - np.array(meta["b"], dtype=float)
+        if fail is None and np.max(np.abs(res)) > 5e-5 * (1 + np.max(np.abs(meta["b"]))):
+            fail = "ML returned %s with residual %s: the likelihood is larger on { x : A x = b }" % (x, res)
+        expr = "check_ml_under %s %s %s && %s" % (cqmat(A_eff.tolist()), cqvec(meta["b"]), cqvec(x.tolist()), route_expr)
+    if fail is None:
+        fail = neighbourhood_fail(BP.likelihood, x, "ML", tol=1e-7)
+    if fail is None:
+        try:
+            g = np.asarray(BP.likelihood.gradient(x), dtype=float)
+            if np.linalg.norm(g) > 1e-3 * (1 + np.linalg.norm(x)):
+                fail = "ML: likelihood gradient norm %.3g at the returned point" % np.linalg.norm(g)
+        except (NotImplementedError, AttributeError):
+            pass
+    return Case(expr=expr, meta=meta, cell=cell, kind="EXACT", impl_fail=fail, signature=SIG_ML if fail else "")
+
+
+def gen_ml_metas(ctx):
+    rng = ctx.rng
+    out = []
+    shapes = [(2, 3), (3, 3), (4, 3), (5, 2), (3, 2)]
+    noise = [("scalar", "cov"), ("vec1", "cov"), ("constvec", "cov"), ("vector", "cov"), ("diagm", "cov"), ("matrix", "cov"), ("sparsed", "cov"),
+             ("scalar", "prec"), ("vector", "prec"), ("matrix", "prec"), ("scalar", "sqrtcov"), ("vector", "sqrtcov"), ("diagm", "sqrtcov"),
+             ("scalar", "sqrtprec"), ("vector", "sqrtprec"), ("diagm", "sqrtprec")]
+    forms = ["dense", "func", "sparse", "general"]
+    k = 0
+    for ke, pe in noise:
+        for (m, n) in shapes:
+            if m == 1 and ke != "scalar":
+                continue
+            for rep in range(ctx.n(1, 3)):
+                k += 1
+                form = forms[k % 4] if pe == "cov" else forms[k % 2]
+                c = dict(m=m, n=n, ke="vector" if ke == "constvec" else ("diagm" if ke == "sparsed" else ke), kx="scalar", pe=pe, px="cov", model=form, geom="default", mean="vec")
+                meta = instantiate(rng, c, op="ml")
+                if ke == "constvec":
+                    meta["ce"]["val"] = [meta["ce"]["val"][0]] * m
+                    meta["constvec"] = True
+                elif ke == "vector":
+                    v = meta["ce"]["val"]
+                    if len(set(v)) == 1:                      # NON-constant variances, always
+                        v[0] = v[0] * 4 if v[0] < 1 else v[0] / 4
+                    if m >= 2 and v[0] == v[1]:
+                        v[1] = v[1] * 2 if v[1] < 2 else v[1] / 8
+                elif ke == "sparsed":
+                    meta["ce"]["kind"] = "sparse"
+                if k % 5 == 0:
+                    xs = ["other", "zeros", "list", "cuqiarray"][(k // 5) % 4]
+                    val = [0.0] * n if xs == "zeros" else [dy(rng, -2, 2) for _ in range(n)]
+                    meta["x0arg"] = {"style": xs if xs in ("list", "cuqiarray") else "ndarray", "val": val, "rel": xs}
+                if k % 3 == 0:
+                    meta["disp"] = bool(k % 2)
+                out.append(meta)
+    return out
+
+
 def case_optng(cuqi, meta):
     """smooth log-concave (unimodal) non-Gaussian posterior: route decision in Coq, maximality by the oracle"""
     BP = build_classes(cuqi, meta)
@@ -1127,6 +1298,8 @@ def dispatch(cuqi, meta, fixed, cell=""):
         return case_opt(cuqi, meta)
     if op in ("optng", "optns"):
         return case_optng(cuqi, meta)
+    if op == "ml":
+        return case_ml(cuqi, meta)
     raise ValueError(op)
 
 
@@ -1268,6 +1441,8 @@ def run(ctx):
         cases.append(case_setup(cuqi, meta))
     for meta in gen_opt_metas(ctx):
         cases.append(case_opt(cuqi, meta))
+    for meta in gen_ml_metas(ctx):
+        cases.append(case_ml(cuqi, meta))
     for meta in gen_optng_metas(ctx):
         cases.append(case_optng(cuqi, meta))
     for meta in gen_optns_metas(ctx):
@@ -1296,7 +1471,7 @@ def classify(meta, detail):
         return classify_map(meta, len(A), len(A[0]))
     if op == "sample" and meta.get("geom") in NONID:
         return SIG_GEOM
-    return {"sample": SIG_SAMPLE, "route": SIG_ROUTE, "cascade": SIG_ROUTE, "setup": SIG_SETUP, "opt": SIG_OPT, "optng": SIG_OPT, "optns": SIG_NONSMOOTH}.get(op, "C15")
+    return {"sample": SIG_SAMPLE, "route": SIG_ROUTE, "cascade": SIG_ROUTE, "setup": SIG_SETUP, "opt": SIG_OPT, "optng": SIG_OPT, "optns": SIG_NONSMOOTH, "ml": SIG_ML}.get(op, "C15")
 
 
 def search(ctx):
